@@ -73,7 +73,7 @@ AuxCalls ==
   \cup {[op |-> "SetLogger", arg |-> a] : a \in {"stdout", "STDOUT", "int1", "stderr", "StdErr", "int2", "custom", "off", "discard", "int0", "nil", "junk", "int7"}}
 
 SettingCalls(s) ==
-       {[op |-> "SetID", v |-> v] : v \in {"", "x", "_random", "_RANDOM", "_addr"}}
+       {[op |-> "SetID", v |-> v] : v \in {"", "x", "_random", "_RANDOM", "_addr", "_Xy"}}      \* _Xy: only the two reserved words are special, everything else is kept verbatim
   \cup {[op |-> "SetCategory", v |-> v] : v \in {"", "k"}}
   \cup {[op |-> "SetDelimiter", form |-> "str", v |-> v] : v \in {"", ","}}
   \cup {[op |-> "SetDelimiter", form |-> "rune", v |-> ";"], [op |-> "SetDelimiter", form |-> "nil", v |-> ""],
